@@ -1,6 +1,6 @@
 """Property -> rules registration."""
 from . import register
-from . import r1, r2, r3, r3d, r4, r5, r6, r7, r8, r9, r10
+from . import r1, r1e, r2, r3, r3d, r4, r5, r6, r7, r8, r9, r10
 
 register(
     "C12",
@@ -8,11 +8,15 @@ register(
     "acquisition of one lock unless both are shared DashMap guards, (R1b) no conflicting cycle in the lock-order graph "
     "built from may-held guard sets at every call and transitive acquisition summaries of callees and closures, (R1c) no "
     "blocking guard alive at a coroutine Yield, (R1d) every call-graph SCC is structural AST recursion or guarded by a "
-    "visited set. Shards are abstracted away (any two keys of one map may collide), so the verdict covers every schedule "
-    "and key placement. Loops (while/loop fixpoints) and starvation are not decided.",
-    [r1.r1a_reentrancy, r1.r1b_order, r1.r1c_await, r1.r1d_recursion],
+    "visited set, (R1e) every hand-written loop matching a progress idiom (parent() walk, peek/next scan, exit-tested "
+    "counter, pop-driven worklist) makes its progress step on every path round the loop, and a worklist expands a node "
+    "only behind a grow-only visited test. Shards are abstracted away (any two keys of one map may collide), so the "
+    "verdict covers every schedule and key placement. Loops matching no idiom (the import-scan fixpoint) and starvation "
+    "are not decided.",
+    [r1.r1a_reentrancy, r1.r1b_order, r1.r1c_await, r1.r1d_recursion, r1e.r1e_loop_progress],
     assumptions=["dashmap 6.1.0 RawRwLock is reader-preferring (read from its source; version re-checked on each run)",
-                 "lock operations inside dependencies are not analysed", "termination of loops is not analysed"],
+                 "lock operations inside dependencies are not analysed",
+                 "termination is decided only as the must-pass-through progress obligation of recognised loop idioms"],
 )
 
 from . import r2
@@ -98,9 +102,11 @@ register(
     "C01",
     "Structural clause of the shadowing order: (R5a) every stage of the resolver cascade (found by role: the generic "
     "function with an exclusion-filter parameter and >= 3 selection sites) selects with a visibility test on the "
-    "element; a stage that selects by name alone can return a definition that is not visible from the using file. "
+    "element; a stage that selects by name alone can return a definition that is not visible from the using file; "
+    "(R5e) the same-file stage takes the last definition; (R10j) the skip filter of import extraction tests the module "
+    "string that is recorded (relative imports keep their dots), so a conftest's relative import is not dropped. "
     "That the cascade order and the conftest walk coincide with pytest for every layout is not decided.",
-    [r5.r5a_c01, r5.r5e_same_file_last],
+    [r5.r5a_c01, r5.r5e_same_file_last, r10.r10j_filter_sees_recorded_module],
 )
 
 register(
@@ -193,9 +199,11 @@ register(
     "Structural clauses of crash freedom: (R7a) every `str` range-indexing site is proven to slice at char boundaries "
     "of the sliced string by an abstract evaluation of the index provenance (find / char_indices / len / guarded "
     "constants / suffix arithmetic) or is in the reviewed table; (R7b) no overflow-checked u32 arithmetic on request "
-    "positions; (R7c) every unwrap/expect outside lock poisoning is reviewed. Other panic sources (slice bounds, usize "
-    "arithmetic, range order), panics inside dependencies, stack exhaustion, wedging and scan isolation are not decided.",
-    [r7.r7_slicing, r7.r7_u32_overflow, r7.r7_unwrap],
+    "positions; (R7c) every unwrap/expect outside lock poisoning is reviewed; (R1e) wedging: hand-written loops make "
+    "their progress step on every path and the dependency-graph worklist expands each node once. Other panic sources "
+    "(slice bounds, usize arithmetic, range order), panics inside dependencies, stack exhaustion and scan isolation are "
+    "not decided.",
+    [r7.r7_slicing, r7.r7_u32_overflow, r7.r7_unwrap, r1e.r1e_loop_progress],
 )
 
 from . import r10
@@ -214,9 +222,10 @@ register(
     "Structural clauses of import/plugin discovery: (R10c) all FixtureDefinition constructors classify alike; (R10d) a "
     "plugin mark precedes the analysis it can affect or enqueues a re-analysis; (R10e) every import-graph walker "
     "follows both imports and pytest_plugins; (R10g) plugin propagation does not test a stale snapshot of the map it "
-    "extends; (R1d) import recursion is guarded by a visited set. Reachability closure on arbitrary graphs and venv "
-    "layouts are not decided.",
-    [r10.r10c_constructors_agree, r10.r10d_mark_before_analyse, r10.r10e_walkers, r10.r10g_no_stale_snapshot, r1.r1d_recursion, r3d.r3d_memo_context],
+    "extends; (R1d) import recursion is guarded by a visited set; (R10j) the import skip filter tests the recorded "
+    "module string. Reachability closure on arbitrary graphs and venv layouts are not decided.",
+    [r10.r10c_constructors_agree, r10.r10d_mark_before_analyse, r10.r10e_walkers, r10.r10g_no_stale_snapshot, r1.r1d_recursion, r3d.r3d_memo_context,
+     r10.r10j_filter_sees_recorded_module],
 )
 
 from . import r9
